@@ -300,6 +300,9 @@ func (Rewards) Check(t *explore.Transition) ([]V, bool) {
 		}
 		chk := func(role string, amt, plain *big.Int, exact bool) {
 			if amt == nil {
+				if A.Sign() == 0 {
+					return // nothing accrued (validator dropped in this block): no event is owed
+				}
 				add("payout|role-not-paid|"+role, "validator %s: no %s event (accrued %s)", v.PubKey.String()[:10], role, A)
 				return
 			}
